@@ -1,9 +1,29 @@
 //! Kani proof harnesses over the `metrics` crate (engine E1 of /verif/DESIGN.md).
 #![allow(dead_code, unused_imports)]
 pub mod c03;
-pub const TABLES: &[&[(&str, fn())]] = &[c03::TABLE];
+pub mod c04;
+pub mod c14;
+pub const TABLES: &[&[(&str, fn())]] = &[c03::TABLE, c04::TABLE, c14::TABLE];
 
 /// Picks one of a small table of static strings by a symbolic index.
 pub fn pick(table: &'static [&'static str]) -> &'static str {
     table[nd::below(table.len())]
+}
+
+/// One-byte string over {a, b}: fresh buffer, concrete pointer and length, symbolic content
+/// (much cheaper for the SAT back end than a symbolic pointer or length).
+pub fn s1() -> &'static str {
+    let b: u8 = nd::any();
+    nd::assume(b == b'a' || b == b'b');
+    let buf: &'static [u8; 1] = Box::leak(Box::new([b]));
+    // SAFETY: ASCII
+    unsafe { std::str::from_utf8_unchecked(&buf[..]) }
+}
+
+static BASE: [u8; 2] = *b"ab";
+/// "", "a" or "ab", all starting at the same address (aliasing prefixes of one static buffer).
+pub fn alias() -> &'static str {
+    let l = nd::below(3);
+    // SAFETY: ASCII
+    unsafe { std::str::from_utf8_unchecked(&BASE[..l]) }
 }
